@@ -43,6 +43,8 @@ const (
 	siteStitch = "pkg/provisioning/bootguard/tools.go:StitchFITEntries"
 	siteOffset = "pkg/tools/ifd.go:CalcImageOffset"
 
+	// former findings, repaired in /repo (KNOWN_FINDINGS.json "fixed": 98fb605, d896621, 06c79de);
+	// the fixed witnesses in probes() and the oracle report their old behaviour as ordinary failures
 	kD9    = "C19-D9-bios-only-offset"
 	kCount = "C19-ibbcount-uint8-wrap"
 	kSM3   = "C19-sm3-name-roundtrip"
@@ -590,7 +592,7 @@ func caseOffset(im *image) {
 		var err error
 		p, _ := gal.Recover(func() { o, err = tools.CalcImageOffset(im.Bytes, a) })
 		in := segInput{Image: im.Name, Layout: im.Lay, Len: len(im.Bytes), Extra: fmt.Sprintf("addr=%#x", a)}
-		idx := ctx.Add("offset/"+im.Lay.Kind, fmt.Sprintf("COffset %s %s %s", im.Lay.lit(), gal.U(a), obsLit(p, err, gal.U(o))), in, true)
+		idx := ctx.Add("offset/"+im.Lay.Kind, fmt.Sprintf("COffset %s %d %s %s", im.Lay.lit(), len(im.Bytes), gal.U(a), obsLit(p, err, gal.U(o))), in, true)
 		// oracle: addresses inside the mapped region translate to region_end - (4GiB - addr)
 		if want, ok := im.specOff(a); ok && want >= im.RegionBeg {
 			switch {
@@ -599,7 +601,7 @@ func caseOffset(im *image) {
 			case o == uint64(want):
 				ctx.OracleOK()
 			case im.Lay.Kind == "bios" && o == basePhys-a:
-				ctx.OracleFailKnown(idx, kD9, fmt.Sprintf("CalcImageOffset(BIOS-region-only image of %#x bytes, %#x) = %#x (the tail offset), want %#x", len(im.Bytes), a, o, want), siteOffset, in)
+				ctx.OracleFail(idx, fmt.Sprintf("CalcImageOffset(BIOS-region-only image of %#x bytes, %#x) = %#x (the tail offset 4GiB-addr, the defect repaired by 98fb605), want %#x", len(im.Bytes), a, o, want), siteOffset, in)
 			default:
 				ctx.OracleFail(idx, fmt.Sprintf("CalcImageOffset(%s, %#x) = %#x, want %#x", im.Lay.Kind, a, o, want), siteOffset, in)
 			}
@@ -689,7 +691,7 @@ func caseSegments(im *image) (ver int, got []seg, ok bool) {
 			ctx.OracleOK()
 		}
 	case pan && len(want) >= 256:
-		ctx.OracleFailKnown(idx, kCount, fmt.Sprintf("CreateIBBSegments panics on %d startup-module entries: %s", len(want), msg), siteSeg, in)
+		ctx.OracleFail(idx, fmt.Sprintf("CreateIBBSegments panics on %d startup-module entries (a counter narrower than int, the defect repaired by d896621?): %s", len(want), msg), siteSeg, in)
 	case pan:
 		ctx.OracleFail(idx, "CreateIBBSegments panics: "+msg, siteSeg, in)
 	case err != nil:
@@ -749,7 +751,6 @@ func randomSegs(im *image, allowOutside bool) []seg {
 type digestResult struct {
 	ok     bool // the call returned a digest
 	digest []byte
-	d9     bool // the digest is wrong and the tail-offset formula explains it
 }
 
 func caseDigest(im *image, ver int, segs []seg, algIdx int) digestResult {
@@ -788,18 +789,13 @@ func caseDigest(im *image, ver int, segs []seg, algIdx int) digestResult {
 		ctx.OracleOK()
 	default:
 		// wrong digest or an error although every segment lies inside the image
-		explained := false
-		if d9Bites(im, segs) {
-			p, ok := readLike(im.Bytes, segs, d9Off)
-			explained = (err == nil && ok && bytes.Equal(d, goHash(an.id, p))) || (err != nil && !ok)
-		}
 		what := fmt.Sprintf("GetIBBsDigest(%s image, %s) = %x err=%v, want %x = hash of the segments' bytes at region_end-(4GiB-base)", im.Lay.Kind, an.name, d, err, goHash(an.id, spec))
-		if explained {
-			res.d9 = true
-			ctx.OracleFailKnown(idx, kD9, what, siteDigest, in)
-		} else {
-			ctx.OracleFail(idx, what, siteDigest, in)
+		if d9Bites(im, segs) {
+			if p, ok := readLike(im.Bytes, segs, d9Off); (err == nil && ok && bytes.Equal(d, goHash(an.id, p))) || (err != nil && !ok) {
+				what += " (the bytes at the tail offsets 4GiB-base were hashed: the CalcImageOffset defect repaired by 98fb605)"
+			}
 		}
+		ctx.OracleFail(idx, what, siteDigest, in)
 	}
 	return res
 }
@@ -867,7 +863,6 @@ func casePipeline(im *image) {
 	idx := ctx.Add(fmt.Sprintf("create-digest/v%d/%s", ver, im.Lay.Kind),
 		fmt.Sprintf("CCreateDigest %d %s %s %s %s %s", ver, gal.ZList64(al), im.Lay.lit(), im.lit(), segLit(segs), obsLit(pan, err, gal.List(obs))), in, true)
 	digestsGood := false
-	d9 := false
 	switch {
 	case pan:
 		ctx.OracleFail(idx, "CreateIBBDigest panics: "+msg, siteCreate, in)
@@ -876,7 +871,7 @@ func casePipeline(im *image) {
 	case !specOK:
 		ctx.Count("create-digest/segment-outside-image(unspecified)")
 	case err != nil && hasSM3 && strings.Contains(err.Error(), "algorithm name provided unknown"):
-		ctx.OracleFailKnown(idx, kSM3, "CreateIBBDigest fails for the offered algorithm SM3: "+err.Error(), siteCreate, in)
+		ctx.OracleFail(idx, "CreateIBBDigest fails for the offered algorithm SM3 (the name round trip repaired by 06c79de): "+err.Error(), siteCreate, in)
 	default:
 		good := err == nil
 		if good {
@@ -891,27 +886,22 @@ func casePipeline(im *image) {
 			digestsGood = true
 			break
 		}
-		explained := false
-		if d9Bites(im, segs) {
-			pp, ok := readLike(im.Bytes, segs, d9Off)
-			explained = (err != nil && !ok) || (err == nil && ok && bytes.Equal(ds[0], goHash(int64(algs[0]), pp)))
-		}
 		what := fmt.Sprintf("CreateIBBDigest(%s image): err=%v digests=%x, want hash of the startup modules' bytes (%x)", im.Lay.Kind, err, ds, goHash(int64(algs[0]), spec))
-		if explained {
-			d9 = true
-			ctx.OracleFailKnown(idx, kD9, what, siteCreate, in)
-		} else {
-			ctx.OracleFail(idx, what, siteCreate, in)
+		if d9Bites(im, segs) {
+			if pp, ok := readLike(im.Bytes, segs, d9Off); (err != nil && !ok) || (err == nil && ok && bytes.Equal(ds[0], goHash(int64(algs[0]), pp))) {
+				what += " (the bytes at the tail offsets 4GiB-base were hashed: the CalcImageOffset defect repaired by 98fb605)"
+			}
 		}
+		ctx.OracleFail(idx, what, siteCreate, in)
 	}
 	if pan || err != nil {
 		return
 	}
-	caseMatch(im, ver, b, segs, digestsGood, d9, specOK)
+	caseMatch(im, ver, b, segs, digestsGood, specOK)
 }
 
 // the independent validator on the manifest the suite generated
-func caseMatch(im *image, ver int, b *bootguard.BootGuard, segs []seg, digestsGood, d9, specOK bool) {
+func caseMatch(im *image, ver int, b *bootguard.BootGuard, segs []seg, digestsGood, specOK bool) {
 	var ok bool
 	var err error
 	pan, msg := gal.Recover(func() { ok, err = b.IBBsMatchBPMDigest(im.Bytes) })
@@ -927,8 +917,6 @@ func caseMatch(im *image, ver int, b *bootguard.BootGuard, segs []seg, digestsGo
 		ctx.Count("match/segment-outside-image(unspecified)")
 	case !pan && ok && digestsGood:
 		ctx.OracleOK()
-	case d9:
-		ctx.OracleFailKnown(idx, kD9, fmt.Sprintf("the independent IBB validation rejects the manifest generated for a BIOS-region-only image (ok=%v err=%v panic=%q)", ok, err, msg), siteMatch, in)
 	case !digestsGood:
 		ctx.Count("match/digest-already-reported")
 	default:
@@ -958,7 +946,7 @@ func caseDigestAndMatch(im *image) {
 	}
 	spec, specOK := specPreimage(im, segs)
 	good := specOK && bytes.Equal(r.digest, goHash(an.id, spec))
-	caseMatch(im, ver, b, segs, good, r.d9, specOK)
+	caseMatch(im, ver, b, segs, good, specOK)
 }
 
 // ------------------------------------------------------------------ stitching
@@ -1139,10 +1127,9 @@ func caseStitch(im *image) {
 	}
 	fail := func(what string, d9ok bool) {
 		if d9ok {
-			ctx.OracleFailKnown(idx, kD9, what, siteStitch, in)
-		} else {
-			ctx.OracleFail(idx, what, siteStitch, in)
+			what += " (what the tail offsets 4GiB-addr explain: the CalcImageOffset defect repaired by 98fb605)"
 		}
+		ctx.OracleFail(idx, what, siteStitch, in)
 	}
 	// (a) frame: nothing outside the targeted entries' regions changes, the file keeps its length
 	if len(after) != len(im.Bytes) {
@@ -1202,6 +1189,9 @@ func caseStitch(im *image) {
 // ------------------------------------------------------------------ fixed witnesses
 
 func probes() {
+	// Fixed witnesses of the three defects this property found and /repo repaired (98fb605,
+	// d896621, 06c79de). A probe is "reproduced" when the call does NOT behave as the property
+	// demands; the ids are no longer open findings, so the driver reports that as a violation.
 	// D9: BIOS-region-only image, one startup module at offset 0x1000
 	n := 0x4000
 	im := &image{Name: "probe-d9", Bytes: newPatImage(n), Lay: layout{Kind: "bios"}, RegionEnd: n, FitOK: true}
@@ -1211,12 +1201,28 @@ func probes() {
 	setSegs(b, 2, []seg{{uint32(im.phys(0x1000)), 0x100, 0}})
 	var d []byte
 	var err error
-	gal.Recover(func() { d, err = b.GetIBBsDigest(im.Bytes, "SHA256") })
+	pan0, _ := gal.Recover(func() { d, err = b.GetIBBsDigest(im.Bytes, "SHA256") })
 	want := sha256.Sum256(im.Bytes[0x1000:0x1100])
 	tail := sha256.Sum256(im.Bytes[0x3000:0x3100])
-	ctx.Probe(kD9, err == nil && !bytes.Equal(d, want[:]) && bytes.Equal(d, tail[:]),
-		"GetIBBsDigest on a 16 KiB BIOS-region-only image, segment base 0xffffd000 size 0x100: hashes image[0x3000:0x3100] (tail offset 4GiB-base) instead of image[0x1000:0x1100]; StitchFITEntries writes KM/BPM/ACM at the same wrong offset")
-	// uint8 counter
+	hint := ""
+	if err == nil && bytes.Equal(d, tail[:]) {
+		hint = " (it hashes image[0x3000:0x3100], the tail offset 4GiB-base: the CalcImageOffset defect repaired by 98fb605)"
+	}
+	ctx.Probe(kD9, pan0 || err != nil || !bytes.Equal(d, want[:]),
+		fmt.Sprintf("GetIBBsDigest on a 16 KiB pattern-filled BIOS-region-only image, CBnT segment base 0xffffd000 size 0x100 flags 0, SHA256: got %x err=%v panic=%v, want sha256(image[0x1000:0x1100]) = %x%s", d, err, pan0, want, hint))
+	// the same image through the stitcher: a 2-byte KM into a 0x40-byte KM entry at offset 0x2000
+	ims := &image{Name: "probe-d9-stitch", Bytes: newPatImage(n), Lay: layout{Kind: "bios"}, RegionEnd: n, FitOK: true}
+	ims.Fit = []fitEnt{fitHeaderEnt(2), {tKM, ims.phys(0x2000), 0x40}}
+	putFIT(ims.Bytes, n-0x800, ims.Fit)
+	ps := writeTmp(ims.Bytes)
+	var serr error
+	pans, _ := gal.Recover(func() { serr = bootguard.StitchFITEntries(ps, nil, nil, []byte{0xfe, 0xff}) })
+	after, _ := os.ReadFile(ps)
+	wantAfter := append([]byte(nil), ims.Bytes...)
+	wantAfter[0x2000], wantAfter[0x2001] = 0xfe, 0xff
+	ctx.Probe(kD9, pans || serr != nil || !bytes.Equal(after, wantAfter),
+		fmt.Sprintf("StitchFITEntries(km = fe ff) on a 16 KiB BIOS-region-only image whose FIT has a KM entry at 0xffffe000 (offset 0x2000) size 0x40: err=%v panic=%v, file length %d, bytes at 0x2000 = %x; want only those two bytes changed to fe ff", serr, pans, len(after), after[0x2000:0x2002]))
+	// segment counter
 	im2 := &image{Name: "probe-count", Bytes: newPatImage(n), Lay: layout{Kind: "bios"}, RegionEnd: n, FitOK: true}
 	im2.Fit = []fitEnt{fitHeaderEnt(257)}
 	for i := 0; i < 256; i++ {
@@ -1225,18 +1231,22 @@ func probes() {
 	putFIT(im2.Bytes, 0x2000, im2.Fit)
 	p := writeTmp(im2.Bytes)
 	b2 := newBG(2, 1)
-	pan, _ := gal.Recover(func() { err = b2.CreateIBBSegments(0, 0, p) })
-	ctx.Probe(kCount, pan, "CreateIBBSegments on a FIT with 256 BIOS-startup-module entries panics (uint8 counter wraps to 0, make([]ibbElement, 0), ibbElements[0])")
+	var cerr error
+	pan, pmsg := gal.Recover(func() { cerr = b2.CreateIBBSegments(0, 0, p) })
+	okSegs := !pan && cerr == nil && segsEqual(getSegs(b2, 2, 0), wantSegsFit(im2.Fit, 0))
+	ctx.Probe(kCount, !okSegs, fmt.Sprintf("CreateIBBSegments(0, 0, 16 KiB BIOS-region-only image whose FIT holds the header and 256 BIOS-startup-module entries, address 0xffffc000+16*i size 1): panic=%q err=%v; want one segment per entry (a uint8 counter wraps to 0: the defect repaired by d896621)", pmsg, cerr))
 	// SM3 name round trip
 	b3 := newBG(2, 1, 18)
 	p3 := writeTmp(im.Bytes)
 	var derr error
+	var d3 []byte
 	pan3, _ := gal.Recover(func() {
 		setSegs(b3, 2, []seg{{uint32(im.phys(0x1000)), 0x100, 0}})
 		err = b3.CreateIBBDigest(p3)
-		_, derr = b3.GetIBBsDigest(im.Bytes, "SM3")
+		d3, derr = b3.GetIBBsDigest(im.Bytes, "SM3")
 	})
-	ctx.Probe(kSM3, !pan3 && err != nil && derr == nil, "CreateIBBDigest on a CBnT manifest whose digest list holds SM3 fails with 'algorithm name provided unknown' (Algorithm.String() gives SM3_256, GetAlgFromString wants SM3) while GetIBBsDigest(image, \"SM3\") works")
+	okSM3 := !pan3 && err == nil && derr == nil && bytes.Equal(getDigests(b3, 2)[0], sm3.Sm3Sum(im.Bytes[0x1000:0x1100])) && bytes.Equal(d3, getDigests(b3, 2)[0])
+	ctx.Probe(kSM3, !okSM3, fmt.Sprintf("CreateIBBDigest on a CBnT manifest whose digest list is [SM3], segment base 0xffffd000 size 0x100, 16 KiB BIOS-region-only image: err=%v panic=%v (GetIBBsDigest(image, \"SM3\") err=%v); want the SM3 digest of image[0x1000:0x1100] (Algorithm.String() gives SM3_256, GetAlgFromString wants SM3: the defect repaired by 06c79de)", err, pan3, derr))
 }
 
 // ------------------------------------------------------------------ main
@@ -1288,8 +1298,8 @@ func main() {
 		caseSegments(im)
 		caseStitch(im)
 	}
-	// many startup modules, including the 8-bit counter boundary
-	for _, k := range []int{40, 200, 255, 256, 257, 300} {
+	// many startup modules, including the 8-bit counter boundary (the counter was a uint8 before d896621)
+	for _, k := range []int{40, 200, 255, 256, 257, 300, 400} {
 		n := 0x4000
 		im := &image{Name: fmt.Sprintf("startup-x%d", k), Bytes: newPatImage(n), RegionEnd: n, RegionBeg: 0x1000, FitOK: true}
 		putIFD(im.Bytes, 1, 3)
@@ -1303,6 +1313,9 @@ func main() {
 		im.Fit = append([]fitEnt{fitHeaderEnt(len(body) + 1)}, body...)
 		putFIT(im.Bytes, 0x2000, im.Fit)
 		caseSegments(im)
+		if k == 256 || k == 300 {
+			casePipeline(im) // the whole chain on more segments than a uint8 counts
+		}
 	}
 	probes()
 	os.Stdout = stdout
